@@ -66,11 +66,13 @@ fn eval_line(l: &str, stats: &mut BTreeMap<String, u64>, thorough: bool) -> (Str
                     // the same built-in where the real optimizer puts it: only inside an alternative that touches the stack (wrapped in
                     // RestoreOnErr), a repetition and a predicate — through parse_and_optimize, as a user's grammar would reach the VM
                     if verdict == "ok" {
-                        let g = format!("r = {{ (PUSH({n}) ~ DROP | \"!\") ~ EOI }}\nq = {{ (!{n} ~ ANY)* ~ {n}? ~ EOI }}\n", n = n);
-                        match catch(|| pest_meta::parse_and_optimize(&g).map(|x| x.1)) {
-                            Ok(Ok(rules)) => { let vm = pest_vm::Vm::new(rules);
+                        // (two grammars: in each the name occurs in one kind of place only)
+                        let g1 = format!("r = {{ (PUSH({n}) ~ DROP | \"!\") ~ EOI }}\n", n = n);
+                        let g2 = format!("q = {{ (!{n} ~ ANY)* ~ {n}? ~ EOI }}\n", n = n);
+                        match catch(|| (pest_meta::parse_and_optimize(&g1).map(|x| x.1), pest_meta::parse_and_optimize(&g2).map(|x| x.1))) {
+                            Ok((Ok(rules1), Ok(rules2))) => { let vm = pest_vm::Vm::new(rules1); let vm2 = pest_vm::Vm::new(rules2);
                                 for p in pts.iter().step_by(step * 4 + 1) { if let Some(c) = char::from_u32(*p) { if c == '!' { continue; } let s = c.to_string();
-                                    let got = catch(|| (vm.parse("r", &s).is_ok(), vm.parse("q", &s).is_ok())); *stats.entry("vm_points_in_grammar".into()).or_default() += 1;
+                                    let got = catch(|| (vm.parse("r", &s).is_ok(), vm2.parse("q", &s).is_ok())); *stats.entry("vm_points_in_grammar".into()).or_default() += 1;
                                     if got != Ok(((f.2)(c), true)) { verdict = format!("FAIL the grammar r = {{ (PUSH({n}) ~ DROP | \"!\") ~ EOI }} / q = {{ (!{n} ~ ANY)* ~ {n}? ~ EOI }} run by the VM on U+{:X}: {:?}, but pest::unicode::{n} says {}", p, got, (f.2)(c), n = n); break; } } } }
                             _ => verdict = format!("FAIL a grammar that uses the advertised property {} inside PUSH(..) does not pass parse_and_optimize", n),
                         }
